@@ -1013,5 +1013,7 @@ fn main() {
             }
         });
     });
+    // supplementary sanitizer lane (thorough): submissions racing on OS threads under Miri (UB + data races)
+    checks::lanes::run(&mon, "miri", "counter", "0..8");
     mon.finish();
 }
